@@ -5,6 +5,7 @@
 From Coq Require Import NArith ZArith List Bool String.
 From Coq.Strings Require Import Byte.
 From LV Require Import Lib.Bytes Wire.Push Wire.Script.
+From LV Require Wire.CompactSize.
 Import ListNotations.
 Local Open Scope N_scope.
 
@@ -168,3 +169,71 @@ Definition all_fields : list field :=
 
 (* Script(template=T, values=vs).source *)
 Definition generate_named (t : tname) (vs : values) : option bytes := generate (template_ops t) vs.
+
+(* ---------------------------------------------------------------------------------------- *)
+(* beyond script.py: where the classification is USED                                        *)
+(* ---------------------------------------------------------------------------------------- *)
+
+(* a script as a transaction carries it: compact-size length, then the bytes
+   (Input/Output.serialize_to -> write_string, deserialize_from -> read_string; Wire/CompactSize.v) *)
+Definition frame (s : bytes) : bytes := LV.Wire.CompactSize.ser_string s.
+(* reading it back and parsing it as OutputScript / InputScript; None = the reader fails *)
+Definition unframe (wire : bytes) : option (bytes * bytes) :=
+  match LV.Wire.CompactSize.read_string wire with
+  | LV.Wire.CompactSize.ROk (s, rest) => Some (s, rest)
+  | LV.Wire.CompactSize.RErr _ => None
+  end.
+
+(* JSONResponseEncoder.encode_output: 'type' (+ 'claim_op') *)
+Inductive jtype := JClaimCreate | JClaimUpdate | JSupport | JData | JPurchase | JPayment.
+
+(* [linked]: Database.tx_to_row / get_transactions set txos[0].purchase when output 1 decodes as purchase data *)
+Definition json_type (c : cls) (linked : bool) : option jtype :=
+  match c with
+  | CClaim => Some JClaimCreate
+  | CUpdate => Some JClaimUpdate
+  | CSupport | CSupportData => Some JSupport
+  | CPurchase | CData => Some JData
+  | CPayment | CEmpty => Some (if linked then JPurchase else JPayment)
+  | CNoMatch | CError => None        (* the script does not parse: the encoder raises *)
+  end.
+
+(* txo_to_row's type column with the purchase link taken into account: claim and support first *)
+Definition row_type_linked (c : cls) (linked : bool) : N :=
+  match row_type c with 0 => if linked then 4 else 0 | r => r end.
+
+(* Ledger.constraint_spending_utxos: txo_type IN (other, purchase) -- what coin selection, get_utxos and
+   Account.fund(everything=True) may spend *)
+Definition spendable (c : cls) (linked : bool) : bool :=
+  let r := row_type_linked c linked in (r =? 0) || (r =? 4).
+
+Section View.
+  (* Purchase.from_bytes succeeds on this return_data datum (protobuf decoding is not modelled) *)
+  Variable decodable : bytes -> bool.
+
+  (* Output.can_decode_purchase_data *)
+  Definition purchase_record (s : bytes) : bool :=
+    match parse_output s with
+    | SMatch t vs => is_purchase_data t vs &&
+                     match lookup F_data vs with Some (VBytes d) => decodable d | _ => false end
+    | _ => false
+    end.
+
+  Definition linked_at (scripts : list bytes) (i : nat) : bool :=
+    match i, scripts with
+    | O, _ :: s1 :: _ => purchase_record s1
+    | _, _ => false
+    end.
+
+  (* what the wallet shows and does for output i of a transaction with these output scripts:
+     (daemon 'type', stored txo_type class, may be spent as a coin) *)
+  Definition view_at (scripts : list bytes) (i : nat) : option (option jtype * N * bool) :=
+    match nth_error scripts i with
+    | Some s => let c := classify s in let l := linked_at scripts i in
+                Some (json_type c l, row_type_linked c l, spendable c l)
+    | None => None
+    end.
+
+  Definition tx_view (scripts : list bytes) : list (option (option jtype * N * bool)) :=
+    map (view_at scripts) (seq 0 (List.length scripts)).
+End View.
